@@ -14,7 +14,7 @@
     the results.  [spec] / [independent] is the specification: a separate run on a fresh copy of
     the model with exactly that row's values, listed in input order under the input labels. *)
 From Coq Require Import List ZArith NArith Sorting.Sorted.
-From Scan Require Import ScanGeneric ScanModel ScanNested ExpectedFacts GenScanFacts ScanProofs ScanProofs2.
+From Scan Require Import ScanGeneric ScanModel ScanNested ScanY0 ExpectedFacts GenScanFacts ScanProofs ScanProofs2 ScanProofs3.
 Import ListNotations.
 
 (** [C09_expected_tc / _ptc / _dups] (ExpectedFacts.v) say which form of the two proposed repairs the
@@ -406,6 +406,186 @@ Theorem C09_ptc_requested_axis_refuted :
   ptc_placeholder_axis full PtcJoined [2; 4]%Z [1; 3; 5]%Z = [0; 1; 2; 3; 4]%Z.
 Proof. exact ptc_requested_axis_wrong. Qed.
 Print Assumptions C09_ptc_requested_axis_refuted.
+
+(** ---- the [y0] argument: initial values for the whole scan ----
+    An entry point with policy [Y0IntoModel] writes y0 into the model before fanning out
+    ([if y0 is not None: model.update_variables(y0)]) and calls the worker without y0.  For ANY worker,
+    view, model, table, y0 (or none), mode and completion order: every row is the separate run on a fresh
+    copy of the model that carries y0 and then exactly that row's values (list container) ... *)
+Theorem C09_y0_written_first_equals_independent :
+  forall (M Row Lbl Sim Out Y0 : Type) (apply_row : Row -> M -> M) (apply_y0 : Y0 -> M -> M)
+         (work : option Y0 -> M -> Sim * M) (view : Sim -> M -> Out * M)
+         (copies : bool) (md : mode) (m0 : M) (oy0 : option Y0) (rows : list (Lbl * Row)),
+    (md = Seq -> copies = true) -> mode_ok md (length rows) ->
+    scan_list_y0 M Row Lbl Sim Out Y0 apply_row apply_y0 work view Y0IntoModel copies md m0 oy0 rows
+    = map (fun lr => (fst lr, independent M Row Sim Out apply_row (work None) view
+                                (match oy0 with Some y => apply_y0 y m0 | None => m0 end) (snd lr))) rows.
+Proof. exact scan_list_y0_into_model. Qed.
+Print Assumptions C09_y0_written_first_equals_independent.
+
+(** ... and the dict-keyed containers behind the index test: that table, or a refusal *)
+Theorem C09_y0_dict_scan_total :
+  forall (M Row Lbl Sim Out Y0 : Type) (apply_row : Row -> M -> M) (apply_y0 : Y0 -> M -> M)
+         (work : option Y0 -> M -> Sim * M) (view : Sim -> M -> Out * M) (lbl_eqb : Lbl -> Lbl -> bool),
+    (forall a b, lbl_eqb a b = true <-> a = b) ->
+    forall (copies : bool) (md : mode) (m0 : M) (oy0 : option Y0) (rows : list (Lbl * Row)),
+    (md = Seq -> copies = true) -> mode_ok md (length rows) ->
+    (NoDup (map fst rows) ->
+       scan_dict_y0 M Row Lbl Sim Out Y0 apply_row apply_y0 work view lbl_eqb Y0IntoModel true copies md m0 oy0 rows
+       = Some (map (fun lr => (fst lr, independent M Row Sim Out apply_row (work None) view
+                                         (match oy0 with Some y => apply_y0 y m0 | None => m0 end) (snd lr))) rows)) /\
+    (~ NoDup (map fst rows) ->
+       scan_dict_y0 M Row Lbl Sim Out Y0 apply_row apply_y0 work view lbl_eqb Y0IntoModel true copies md m0 oy0 rows = None).
+Proof. exact scan_dict_y0_into_model_total. Qed.
+Print Assumptions C09_y0_dict_scan_total.
+
+(** the other shape (seeded change C09-4: nothing written, [y0=y0] handed to the worker): what comes
+    back is the run of the worker WITH y0 on the model WITHOUT y0 plus the row *)
+Theorem C09_y0_handed_to_worker_is_another_run :
+  forall (M Row Lbl Sim Out Y0 : Type) (apply_row : Row -> M -> M) (apply_y0 : Y0 -> M -> M)
+         (work : option Y0 -> M -> Sim * M) (view : Sim -> M -> Out * M)
+         (copies : bool) (md : mode) (m0 : M) (oy0 : option Y0) (rows : list (Lbl * Row)),
+    (md = Seq -> copies = true) -> mode_ok md (length rows) ->
+    scan_list_y0 M Row Lbl Sim Out Y0 apply_row apply_y0 work view Y0ToWorker copies md m0 oy0 rows
+    = map (fun lr => (fst lr, independent M Row Sim Out apply_row (work oy0) view m0 (snd lr))) rows.
+Proof. exact scan_list_y0_to_worker. Qed.
+Print Assumptions C09_y0_handed_to_worker_is_another_run.
+
+(** the executable instance at the tree's facts: for EVERY entry point of the regenerated table (its
+    y0 policy is read from the source), steady-state and time-course workers, any model, y0, table *)
+Theorem C09_scan_with_y0_equals_independent :
+  forall ep : entry_point, In ep gen_entry_points ->
+  forall (w : wkind) (md : mode) (m0 : mdl) (oy0 : option y0) (rows : list (label * row)),
+    mode_ok md (length rows) ->
+    scan_list_y0_c (ep_y0 ep) gen_scan_facts w md m0 oy0 rows
+    = map (fun lr => (fst lr, independent_c (sf_tc_axis gen_scan_facts) w
+                                (match oy0 with Some y => update_variables m0 y | None => m0 end) (snd lr))) rows.
+Proof. exact (scan_with_y0_pinned gen_scan_facts gen_entry_points (f_equal sf_copies C09_facts_pinned) C09_entry_points_pinned). Qed.
+Print Assumptions C09_scan_with_y0_equals_independent.
+
+(** the order of the two writes, for every model, y0, row and variable [k]: the task's model holds the
+    row's value if the row names [k], else y0's value, else the model's own initial value -- a row's own
+    initial value beats y0 (and initial assignments are evaluated from this content) *)
+Theorem C09_y0_then_row :
+  forall (m : mdl) (y : y0) (r : row) (k : name),
+    lookup k (m_vars (apply_row r (update_variables m y)))
+    = match lookup k (m_vars m) with
+      | None => None
+      | Some x => match last_of k r with
+                  | Some v => Some (Plain v)
+                  | None => match last_of k y with Some v => Some (Plain v) | None => Some x end
+                  end
+      end.
+Proof. exact y0_then_row. Qed.
+Print Assumptions C09_y0_then_row.
+
+(** regression (seeded change C09-4), model x(10) = 10, cap := x, flux = cap * k, y0 = {x: 5}:
+    table over x = 1, 2, 4: the tree's policy starts the rows at 1, 2, 4, the worker policy at 5, 5, 5;
+    table over k = 1, 2, 3: the assignment sees y0 (fluxes 5, 10, 15) vs the old value (10, 20, 30) *)
+Theorem C09_y0_handed_to_worker_refuted :
+  forall f : scan_facts, sf_copies f = true ->
+  let w := WTimeCourse [0; 1]%Z in
+  let y := Some [(10%N, 5%Z)] in
+  (map first_var (scan_list_y0_c Y0IntoModel f w Seq y0_model y y0_rows_overlap) = [Some (Num 1); Some (Num 2); Some (Num 4)] /\
+   map first_var (scan_list_y0_c Y0ToWorker f w Seq y0_model y y0_rows_overlap) = [Some (Num 5); Some (Num 5); Some (Num 5)] /\
+   map first_var (spec_y0_c (sf_tc_axis f) w y0_model y y0_rows_overlap) = [Some (Num 1); Some (Num 2); Some (Num 4)]) /\
+  (map first_flux (scan_list_y0_c Y0IntoModel f w Seq y0_model y y0_rows_par) = [Some (Num 5); Some (Num 10); Some (Num 15)] /\
+   map first_flux (scan_list_y0_c Y0ToWorker f w Seq y0_model y y0_rows_par) = [Some (Num 10); Some (Num 20); Some (Num 30)] /\
+   map first_flux (spec_y0_c (sf_tc_axis f) w y0_model y y0_rows_par) = [Some (Num 5); Some (Num 10); Some (Num 15)]).
+Proof. exact y0_policies_differ. Qed.
+Print Assumptions C09_y0_handed_to_worker_refuted.
+
+(** ---- steady-state scans and equal index labels ----
+    The list container is positional: C09_scan_equals_independent_any_worker has NO hypothesis on the
+    labels.  Concretely, rows labelled 0, 1, 0 (two tables glued with pd.concat): fluxes 1, 2, 3 in
+    sequential mode and with two workers completing in the order 2, 0, 1, under the labels 0, 1, 0 *)
+Theorem C09_list_container_ignores_labels :
+  forall f : scan_facts, sf_copies f = true ->
+  map first_flux (scan_list_c f (WTimeCourse [0; 1]%Z) Seq stale_model dup_rows) = [Some (Num 1); Some (Num 2); Some (Num 3)]
+  /\ map first_flux (scan_list_c f (WTimeCourse [0; 1]%Z) (Par 2 [(2, 1); (0, 0); (1, 1)]) stale_model dup_rows)
+     = [Some (Num 1); Some (Num 2); Some (Num 3)]
+  /\ map fst (scan_list_c f (WTimeCourse [0; 1]%Z) Seq stale_model dup_rows) = [0; 1; 0]%Z.
+Proof. exact positional_list_ignores_labels. Qed.
+Print Assumptions C09_list_container_ignores_labels.
+
+(** the list filled BY LABEL ([by_label = dict(res); [by_label[k] for k in index]], seeded change C09-6)
+    is the positional one only for pairwise different labels.
+    FULL STATEMENT (false, see C09_by_label_container_refuted): the same without [NoDup]. *)
+Theorem C09_by_label_container_partial :
+  forall (M Row Lbl Sim Out : Type) (apply_row : Row -> M -> M) (view : Sim -> M -> Out * M) (lbl_eqb : Lbl -> Lbl -> bool),
+    (forall a b, lbl_eqb a b = true <-> a = b) ->
+    forall (work : M -> Sim * M) (copies : bool) (md : mode) (m0 : M) (rows : list (Lbl * Row)),
+    (md = Seq -> copies = true) -> mode_ok md (length rows) -> NoDup (map fst rows) ->
+    scan_list_by_label M Row Lbl Sim Out apply_row view lbl_eqb work copies md m0 rows
+    = map (fun lr => (fst lr, independent M Row Sim Out apply_row work view m0 (snd lr))) rows.
+Proof. exact scan_list_by_label_NoDup. Qed.
+Print Assumptions C09_by_label_container_partial.
+
+(** regression: rows labelled 0, 1, 0 -- right length, right labels, but the first row is reported with
+    the numbers of the third (fluxes 3, 2, 3), sequentially and in the pool *)
+Theorem C09_by_label_container_refuted :
+  forall f : scan_facts, sf_copies f = true ->
+  map first_flux (scan_list_by_label_c f (WTimeCourse [0; 1]%Z) Seq stale_model dup_rows) = [Some (Num 3); Some (Num 2); Some (Num 3)]
+  /\ map first_flux (scan_list_by_label_c f (WTimeCourse [0; 1]%Z) (Par 2 [(2, 1); (0, 0); (1, 1)]) stale_model dup_rows)
+     = [Some (Num 3); Some (Num 2); Some (Num 3)]
+  /\ map fst (scan_list_by_label_c f (WTimeCourse [0; 1]%Z) Seq stale_model dup_rows) = [0; 1; 0]%Z.
+Proof. exact by_label_misreports. Qed.
+Print Assumptions C09_by_label_container_refuted.
+
+(** ---- the result cache ([cache=]): one file per row LABEL ([_load_or_run]) ----
+    Sequential run over a table with pairwise different labels, none of them on disk: the cached run
+    returns exactly what the uncached run returns ... *)
+Theorem C09_cache_transparent_unique_labels :
+  forall (K T R : Type) (keqb : K -> K -> bool), (forall a b, keqb a b = true <-> a = b) ->
+  forall (f : T -> R) (inputs : list (K * T)) (st : list (K * R)),
+    NoDup (map fst inputs) -> (forall k, In k (map fst inputs) -> slookup K R keqb k st = None) ->
+    snd (run_cached K T R keqb f st inputs) = map (fun kt => (fst kt, f (snd kt))) inputs.
+Proof. exact cache_seq_transparent. Qed.
+Print Assumptions C09_cache_transparent_unique_labels.
+
+(** ... and under ANY interleaving of worker processes: whatever part [done] of the table's results is
+    already on disk at the instant a row's call looks, the row gets its own result *)
+Theorem C09_cache_any_interleaving :
+  forall (K T R : Type) (keqb : K -> K -> bool), (forall a b, keqb a b = true <-> a = b) ->
+  forall (f : T -> R) (st0 : list (K * R)) (inputs done : list (K * T)) (k : K) (t : T),
+    NoDup (map fst inputs) -> (forall k, In k (map fst inputs) -> slookup K R keqb k st0 = None) ->
+    incl done inputs -> In (k, t) inputs ->
+    snd (load_or_run K T R keqb f (st0 ++ saved K T R f done) (k, t)) = (k, f t).
+Proof. exact cache_any_interleaving. Qed.
+Print Assumptions C09_cache_any_interleaving.
+
+(** ANY table, empty cache directory, sequential: every row is answered with the result of the FIRST
+    row that carries its label -- so a row whose label occurred before gets that earlier row's numbers *)
+Theorem C09_cache_first_row_with_label_wins :
+  forall (K T R : Type) (keqb : K -> K -> bool), (forall a b, keqb a b = true <-> a = b) ->
+  forall (f : T -> R) (inputs : list (K * T)),
+    snd (run_cached K T R keqb f [] inputs)
+    = map (fun kt => (fst kt, match first_with K T keqb (fst kt) inputs with Some t => f t | None => f (snd kt) end)) inputs.
+Proof. exact cache_seq_first_wins. Qed.
+Print Assumptions C09_cache_first_row_with_label_wins.
+
+(** regression / recorded finding cached-duplicate-labels: two rows under one label, the second is
+    answered with the first row's result (steady-state scans accept such tables: their container is
+    positional) *)
+Theorem C09_cached_duplicate_labels_refuted :
+  forall (K T R : Type) (keqb : K -> K -> bool), (forall a b, keqb a b = true <-> a = b) ->
+  forall (f : T -> R) (k : K) (t1 t2 : T),
+    snd (run_cached K T R keqb f [] [(k, t1); (k, t2)]) = [(k, f t1); (k, f t1)].
+Proof. exact cache_duplicate_key. Qed.
+Print Assumptions C09_cached_duplicate_labels_refuted.
+
+(** with the index test in front of a cached run ([if cache is not None: _require_unique_index(table)],
+    column [ep_cache_check] of the pinned entry-point table; the dict-keyed entry points make the test
+    anyway): the cached run is the uncached one, or a visible refusal *)
+Theorem C09_cache_checked_total :
+  forall (K T R : Type) (keqb : K -> K -> bool), (forall a b, keqb a b = true <-> a = b) ->
+  forall (f : T -> R) (st : list (K * R)) (inputs : list (K * T)),
+    (forall k, In k (map fst inputs) -> slookup K R keqb k st = None) ->
+    (NoDup (map fst inputs) ->
+       run_cached_checked K T R keqb true f st inputs = Some (map (fun kt => (fst kt, f (snd kt))) inputs)) /\
+    (~ NoDup (map fst inputs) -> run_cached_checked K T R keqb true f st inputs = None).
+Proof. exact cache_checked_total. Qed.
+Print Assumptions C09_cache_checked_total.
 
 (** non-vacuity: three rows, two workers, tasks completing in the order 2, 0, 1; the model whose
     parameter is assigned from the scanned initial value *)
